@@ -2,6 +2,8 @@ package checks
 
 import (
 	"bytes"
+	"compress/gzip"
+	"compress/zlib"
 	"context"
 	"encoding/binary"
 	"fmt"
@@ -260,8 +262,41 @@ func bytesSetter(name string, signed bool, set func(v *accountant.Vertex, b []by
 			}
 		}
 		out = append(out, func(v *accountant.Vertex) string { set(v, nil); return name + "=nil" })
+		// payloads that are themselves in a format some layer might recognise: compressed streams (an attached .gz),
+		// text encodings, a serialised object of the code's own kind
+		for li, lk := range c19Lookalikes() {
+			li, lk := li, lk
+			out = append(out, func(v *accountant.Vertex) string {
+				set(v, append([]byte{}, lk...))
+				return fmt.Sprintf("%s=lookalike%d", name, li)
+			})
+		}
 		return out
 	}}
+}
+
+// c19Lookalikes: byte strings that are valid instances of formats a storage or transport layer might detect in-band.
+func c19Lookalikes() [][]byte {
+	var out [][]byte
+	for _, n := range []int{40, 3000} {
+		plain := bytes.Repeat([]byte("attachment "), n/11+1)[:n]
+		var gz bytes.Buffer
+		zw := gzip.NewWriter(&gz)
+		zw.Write(plain)
+		zw.Close()
+		out = append(out, gz.Bytes())
+		var zl bytes.Buffer
+		lw := zlib.NewWriter(&zl)
+		lw.Write(plain)
+		lw.Close()
+		out = append(out, zl.Bytes())
+	}
+	out = append(out, []byte(`{"subject":"json inside data","spice":{"currency":1}}`))
+	out = append(out, []byte("LS0tLS1CRUdJTiBQVUJMSUMgS0VZLS0tLS0="))
+	out = append(out, []byte("-----BEGIN PUBLIC KEY-----\nMCowBQYDK2VwAyEA\n-----END PUBLIC KEY-----\n"))
+	// msgpack: a map header, a bin8 header, an ext type
+	out = append(out, []byte{0x82, 0xa1, 'a', 0x01, 0xa1, 'b', 0xc4, 0x02, 0x00, 0x01}, []byte{0xc7, 0x03, 0x05, 1, 2, 3}, []byte{0xc0})
+	return out
 }
 
 func intSetter(name string, signed bool, set func(v *accountant.Vertex, x uint64)) c19Setter {
